@@ -60,6 +60,21 @@ theorem escape_quotes_escaped_automaton (om : Bool) (k : Q) (s : Str) :
 theorem help_no_raw_lf (s : Str) : '\n' ∉ escapeHelp s ∧ '\n' ∉ escapeHelpTrailing s :=
   ⟨escapeHelp_noLF s, by rw [escapeHelpTrailing_eq]; exact escapeHelp_noLF s⟩
 
+/-- the HELP docstrings are docstrings of their format, for every help text: text format (both call sites) — every
+backslash written is half of `\\\\` or starts `\\n`, nothing else (0.0.4 knows exactly these two escapes); OpenMetrics — an
+`escaped-string` of the ABNF -/
+theorem help_text_well_escaped (s : Str) :
+    helpText false (escapeHelp s) = true ∧ helpText false (escapeHelpTrailing s) = true ∧
+    helpText true (escape s) = true := by
+  refine ⟨?_, ?_, ?_⟩
+  · simpa [helpText] using hscan_escapeHelp s
+  · simpa [helpText, escapeHelpTrailing_eq] using hscan_escapeHelp s
+  · simp [helpText, qscan_escape]
+
+/-- what the grammar rejects: the label-value escape `\\"` is not an escape of a text-format HELP docstring -/
+example : helpText false "He said \\\"hi\\\"".toList = false ∧ helpText false "a\\".toList = false ∧
+    helpText false "He said \"hi\" \\\\ \\n".toList = true ∧ helpText true "a\"b".toList = false := by decide
+
 /-- exemplar label values are escaped by the same chain as `_escape` -/
 theorem exemplar_value_escaped (s rest : Str) :
     '\n' ∉ escapeExemplarValue s ∧ qscan false (escapeExemplarValue s ++ '"' :: rest) = some rest := by
